@@ -72,12 +72,18 @@ def execOp (op : String) (a : List Int) : Option (Option String) :=
   match op, a with
   | "scd", [y, m, d] => some (modelDay y m d)
   | "sch", [y, m, d, h, mi, s] => some (modelTime y m d h mi s)
+  | "jd.week", [y, m, d, h, mi, s] => some <|
+      if solarDayOk y m d && decide (0 ≤ h ∧ h ≤ 23 ∧ 0 ≤ mi ∧ mi ≤ 59 ∧ 0 ≤ s ∧ s ≤ 59) then some (toString (weekOfJdn (jdn y m d))) else none
+  | "jd.weekf", [j, k] => some <| if 1721424 ≤ j ∧ j ≤ 5373484 ∧ 0 ≤ k ∧ k < 86400 then some (toString (weekOfJdn j)) else none
   | _, _ => none
 
 def specOp (op : String) (a : List Int) : Option (Option String) :=
   match op, a with
   | "scd", [y, m, d] => some (specDay y m d)
   | "sch", [y, m, d, h, mi, s] => some (specTime y m d h mi s)
+  | "jd.week", [y, m, d, h, mi, s] => some <|
+      if Civil.valid y m d && decide (0 ≤ h ∧ h ≤ 23 ∧ 0 ≤ mi ∧ mi ≤ 59 ∧ 0 ≤ s ∧ s ≤ 59) then some (toString ((jdn y m d + 1) % 7)) else none
+  | "jd.weekf", [j, k] => some <| if 1721424 ≤ j ∧ j ≤ 5373484 ∧ 0 ≤ k ∧ k < 86400 then some (toString ((j + 1) % 7)) else none
   | _, _ => none
 
 def enumDays (spec : Bool) (args : List String) (out : IO.FS.Stream) : IO Unit := do
